@@ -154,7 +154,9 @@ impl Scenario for ScanEdit {
             2 => rng.below(2500) as u64,
             _ => rng.below(12000) as u64,
         };
-        let kind = if rng.chance(450) { "open" } else { "change" };
+        // "openclose": the user looks at an unmodified document and closes it again while the scan is running
+        let kind = if rng.chance(150) { "openclose" } else if rng.chance(450) { "open" } else { "change" };
+        let buffer = if kind == "openclose" { spec.file(&file).map(|pf| render(&pf.items).text).unwrap_or_else(|| "import pytest\n".to_string()) } else { buffer };
         // aimed notifications: a little before the worker picks up F (the message still has to be read
         // and dispatched) up to a little after
         let aim = if rng.chance(550) { Some(if rng.chance(700) { rng.below(260) as i64 - 200 } else { rng.below(900) as i64 - 450 }) } else { None };
@@ -167,7 +169,7 @@ impl Scenario for ScanEdit {
         }
         let via_symlink = rng.chance(150);
         // the user is in the middle of typing: the buffer does not parse (the file on disk is its last valid version)
-        let buffer = if rng.chance(150) { super::pytext::break_syntax(&mut rng, &spec.file(&file).map(|pf| render(&pf.items).text).unwrap_or_else(|| buffer.clone())) } else { buffer };
+        let buffer = if kind != "openclose" && rng.chance(150) { super::pytext::break_syntax(&mut rng, &spec.file(&file).map(|pf| render(&pf.items).text).unwrap_or_else(|| buffer.clone())) } else { buffer };
         serde_json::to_value(ScanEditInput { spec, sim, file, buffer, kind: kind.into(), delay, aim, second, run_seed, sandbox: None, via_symlink }).unwrap()
     }
 
@@ -255,7 +257,7 @@ impl Scenario for ScanEdit {
             let raced = !obs.scan_done_before_notify && !(obs.worker_done_with_file_before_notify && !obs.plugin_marked_after_notify);
             let class = if only_f && raced { "RC-SCAN-NO-CLEANUP" } else { "scanedit-index-differs" };
             out.violate(class, format!("after scan and did{}({}) both finished (notification sent after {} steps): index != single analysis of the buffer: {}", inp.kind, inp.file, inp.delay, d));
-        } else if obs.cache_text.as_deref() != Some(inp.buffer.as_str()) {
+        } else if inp.kind != "openclose" && obs.cache_text.as_deref() != Some(inp.buffer.as_str()) {
             let class = if !obs.scan_done_before_notify && !(obs.worker_done_with_file_before_notify && !obs.plugin_marked_after_notify) { "RC-SCAN-NO-CLEANUP" } else { "scanedit-cached-text-differs" };
             out.violate(class, format!("cached text of {} is not the editor's buffer after scan and notification finished (it is {})", inp.file, if obs.cache_text.is_some() { "the on-disk text or another version" } else { "absent" }));
         }
@@ -317,7 +319,7 @@ fn drive(root: &Path, inp: &ScanEditInput) -> Obs {
         return obs;
     }
     srv.notify("initialized", json!({}));
-    if inp.kind != "open" {
+    if inp.kind == "change" {
         // a conforming client opens the document (with the on-disk text) before it edits it
         let disk = inp.spec.file(&inp.file).map(|f| render(&f.items).text).unwrap_or_else(|| "import pytest\n".to_string());
         srv.did_open(&inp.file, &disk, 1);
@@ -344,6 +346,9 @@ fn drive(root: &Path, inp: &ScanEditInput) -> Obs {
     }
     if inp.kind == "open" {
         srv.did_open(&inp.file, &inp.buffer, 1);
+    } else if inp.kind == "openclose" {
+        srv.did_open(&inp.file, &inp.buffer, 1);
+        srv.did_close(&inp.file);
     } else {
         srv.did_change(&inp.file, &inp.buffer, 2);
     }
